@@ -23,6 +23,7 @@ OPTION_TYS = ("std::option::Option<",)
 
 HANDLE_TYS = ("std::slice::IterMut<", "std::slice::Iter<", "std::collections::hash_map::IterMut<", "std::collections::hash_map::ValuesMut<",
               "std::option::Option<&", "std::iter::Enumerate<std::slice::IterMut<", "std::iter::Rev<std::slice::IterMut<",
+              "std::iter::Zip<std::slice::IterMut<", "std::option::Option<(&mut", "std::option::Option<(&'_ mut",
               "std::cell::RefMut<", "std::cell::Ref<", "std::collections::hash_map::Entry<",
               "std::collections::hash_map::OccupiedEntry<", "std::collections::hash_map::VacantEntry<",
               "std::collections::btree_map::Entry<", "std::vec::Drain<", "std::collections::hash_map::Drain<")
@@ -106,7 +107,7 @@ class Origins:
                 elif kind == "call":
                     t = obj
                     nm = t.callee_name()
-                    if t.args and t.args[0].place is not None and (nm in BORROWING or nm in ("unwrap", "expect", "get_mut", "insert", "or_insert", "or_insert_with", "into_mut", "next", "next_back", "enumerate", "rev", "take", "skip")) and self._is_ptr_like_result(l):
+                    if t.args and t.args[0].place is not None and (nm in BORROWING or nm in ("unwrap", "expect", "get_mut", "insert", "or_insert", "or_insert_with", "into_mut", "next", "next_back", "enumerate", "rev", "take", "skip", "zip")) and self._is_ptr_like_result(l):
                         o = self.of_place(t.args[0].place, stack + (l,), value=True)
                         if o is not None and nm in ("index_mut", "index", "get_mut", "get", "iter_mut", "iter", "first_mut", "last_mut", "entry", "values_mut"):
                             o = o.extend(["[]"])
@@ -126,7 +127,7 @@ class Origins:
 
     def _is_ptr_like_result(self, l):
         ty = self.fn.local_ty(l)
-        return self._is_ptr(l) or ty.startswith("std::option::Option<&")
+        return self._is_ptr(l) or ty.startswith("std::option::Option<&") or ty.startswith("std::option::Option<(&")
 
     def of_place(self, place, stack=(), value=False):
         """origin of the memory denoted by `place` (value=False) or of the pointer stored in it (value=True)"""
@@ -147,6 +148,11 @@ class Origins:
                 o = self.of_local(base, stack)
                 if o is None:
                     return None
+                if fn.local_ty(base).startswith("std::option::Option<(&"):
+                    # item of a Zip whose FIRST stream is the mutable one: only component 0 of the pair points into it
+                    flds = [p.get("i") for p in proj if p["k"] == "field"]
+                    if len(flds) < 2 or flds[1] != 0:
+                        return None
                 names = []
                 return o
             if 1 <= base <= fn.arg_count:
@@ -285,14 +291,14 @@ class PathEnumerator:
     (bb, state, tracked constants) — a small explicit-state exploration that stays cheap on
     functions whose plain path count explodes (quotient-filter union)."""
 
-    def __init__(self, fn, prog, summaries=None, max_back=1, limit=20000, inline=True):
+    def __init__(self, fn, prog, summaries=None, max_back=1, limit=20000, inline=True, subst=None):
         self.fn = fn
         self.prog = prog
         self.summ = summaries
         self.max_back = max_back
         self.limit = limit
         self.inline = inline
-        self.tb = TermBuilder(fn, prog)
+        self.tb = TermBuilder(fn, prog, subst)     # subst: parameter -> term (a closure analysed in the frame of its creator)
         self.origins = Origins(fn)
         self.truncated = False
         self._count = 0
@@ -515,6 +521,10 @@ class PathEnumerator:
     def _set_local(self, l, env, cls, val=None, c=None):
         env.pop(l, None)
         cls.pop(l, None)
+        if val is not None and l in self.tb.clobbers() and self.fn.local_ty(l) in ("bool", "usize", "u64", "u32", "u8", "i32", "i64", "isize"):
+            # a scalar whose address is taken mutably (captured by a closure, passed as an out-parameter) may be changed behind
+            # the back of this path: its constant is not tracked
+            return
         if val is not None:
             env[l] = val
         if c is not None:
@@ -696,6 +706,42 @@ class PathEnumerator:
                 "kind": "write", "root": o.root, "path": o.path, "how": how, "callee": callee,
                 "name": name, "args": args, "value": None, "bb": bb, "idx": idx, "span": t.span,
                 "origin_fn": self.fn.key, "argi": i, "via": ()})
+        # a closure handed to an external higher-order function (fold, for_each, all, ...): what the closure writes through its
+        # captured references is written by this call — an unknown number of times, once per item the function visits
+        for i, a in enumerate(t.args):
+            clo = self._closure_arg(a)
+            if clo is None or self.summ is None or self.prog is None or self.prog.fn(clo[0]) is None:
+                continue
+            ckey, ops, cbb, csi = clo
+            from .terms import subst_term, elem_of
+            cfn = self.prog.fn(ckey)
+            item_param = 3 if name in ("fold", "try_fold") else 2
+            m = {}
+            if i > 0 and args and item_param <= cfn.arg_count:
+                m[("param", item_param, cfn.local_name(item_param))] = elem_of(args[0])
+            seen_w = set()
+            for (wevs, ret, payload) in (self.summ.alternatives(ckey) or []):
+                for w in wevs:
+                    if w["root"] != ("param", 1) or not w["path"] or not str(w["path"][0]).isdigit() or int(w["path"][0]) >= len(ops):
+                        continue
+                    op = ops[int(w["path"][0])]
+                    o = self.origins.of_place(op.place, value=True) if op.place is not None and op.place.is_local() else None
+                    e = dict(w)
+                    if o is None:
+                        e["root"] = ("unknown", str(op))
+                        e["path"] = tuple(w["path"][1:])
+                    else:
+                        e["root"] = o.root
+                        e["path"] = o.path + tuple(w["path"][1:])
+                    e["args"] = [subst_term(x, m) for x in w.get("args", [])]
+                    if w.get("value") is not None:
+                        e["value"] = subst_term(w["value"], m)
+                    e.update({"bb": bb, "idx": idx, "span": w.get("span", t.span), "origin_fn": self.fn.key, "via": (), "closure": ckey, "hof": name})
+                    k = (repr(e["root"]), e["path"], e["how"], e.get("name"), repr(e["args"]), repr(e.get("value")))
+                    if k in seen_w:
+                        continue
+                    seen_w.add(k)
+                    evs2, state2 = self._push(evs2, state2, e)
         env2, cls2 = dict(env), dict(cls)
         forks = [(None, None)]
         if dest is not None:
@@ -750,6 +796,18 @@ class PathEnumerator:
                 e3[dest] = fk[0]
                 c3[fk[1][0]] = (fk[1][1], cls.get(fk[1][0], (None, None))[1])
             yield from self._next(bb, target, blocks, evs2, e3, c3, backcount, state2)
+
+    def _closure_arg(self, a):
+        """(closure key, captured operands, bb, stmt index) when operand `a` is a local holding a closure built in this function"""
+        if a.place is None or not a.place.is_local():
+            return None
+        fn = self.fn
+        for (b, i, kind, obj) in fn.defs().get(a.place.local, []):
+            if kind == "stmt" and obj.rv.k == "aggregate" and obj.rv.j.get("ak") == "closure":
+                key = obj.rv.j.get("def") or obj.rv.j.get("closure") or obj.rv.j.get("key")
+                if key:
+                    return key, obj.rv.ops, b, i
+        return None
 
     def _pointee_local(self, place):
         """for `&_x` passed as an argument: the local x"""
